@@ -181,6 +181,7 @@ type ReadOpts struct {
 type Variant struct {
 	DecimalAlias bool // page numbers compared as tens*10+units (0x1A == 0x20)
 	DupRows      bool // a row number received k times in an instance yields k lines (of its final content)
+	Lenient      bool // in the two undecided shapes reception continues (instead of reporting Unsettled)
 	Restyle      bool // a colour/size code outside the box restyles the run collected so far instead of ending it
 }
 
@@ -190,10 +191,12 @@ type Expectation struct {
 	NoPID         bool   // the PMT has no teletext PID and none was given
 	Unsettled     string // non-empty: the stream has a shape the property sentence does not settle; fidelity is not compared
 	Retransmitted bool   // some instance received the same row number more than once
+	Designated    bool   // a well-coded X/28/0 format 1 or M/29/0 of the selected magazine designated a default G0 set
 	HexAlias      bool   // a header with a hexadecimal page digit was seen whose decimal reading equals the selected page's
 }
 
 type instance struct {
+	desig      int // 7-bit default G0 designation of the last X/28 / M/29 seen before the instance closed, -1 = none
 	start, end int64
 	nat        Subset
 	rows       map[int]*Packet
@@ -250,6 +253,7 @@ func Expect(s Stream, o ReadOpts, v Variant) (x Expectation) {
 	var open *instance
 	strict, lenient := false, false // "still receiving" under the two readings of the undecided shapes
 	mode := -1
+	desig := -1
 	for _, p := range pess {
 		if p.StreamID != 0 && p.StreamID != 0xbd {
 			continue
@@ -295,7 +299,7 @@ func Expect(s Stream, o ReadOpts, v Variant) (x Expectation) {
 				}
 				if !filler && pk.Mag == selMag && pageEq(pk) {
 					if open != nil {
-						open.end = t
+						open.end, open.desig = t, desig
 						done = append(done, open)
 					}
 					open = &instance{start: t, nat: pk.Nat, rows: map[int]*Packet{}}
@@ -316,6 +320,9 @@ func Expect(s Stream, o ReadOpts, v Variant) (x Expectation) {
 					x.Unsettled = "packet 25"
 					continue
 				}
+				if strict != lenient && v.Lenient {
+					strict = true
+				}
 				if strict != lenient {
 					x.Unsettled = "rows after a same-number header of another magazine (serial) or after a time-filling header"
 					continue
@@ -328,11 +335,23 @@ func Expect(s Stream, o ReadOpts, v Variant) (x Expectation) {
 				}
 				open.rows[pk.Y] = pk
 				open.order = append(open.order, pk.Y)
+			case KX28, KM29:
+				// Enhancement packets never contribute text; a correctly coded X/28/0 format 1 (while its page
+				// is being received) or M/29/0 does designate the default G0 set, which is remembered only to
+				// flag streams where it contradicts the header's national option (undecided by the sentence).
+				if !selected || pk.Mag != selMag || pk.RawTail != nil || (pk.Designation != 0 && pk.Designation != 4) || len(pk.Triplets) == 0 {
+					continue
+				}
+				if pk.Kind == KX28 && (open == nil || !lenient || pk.Triplets[0]&0xf != 0) {
+					continue
+				}
+				desig = int(pk.Triplets[0] >> 7 & 0x7f)
+				x.Designated = true
 			}
 		}
 	}
 	if open != nil {
-		open.end = last
+		open.end, open.desig = last, desig
 		done = append(done, open)
 	}
 	ns := func(ticks int64) int64 {
@@ -344,6 +363,9 @@ func Expect(s Stream, o ReadOpts, v Variant) (x Expectation) {
 	for _, in := range done {
 		if len(in.rows) == 0 {
 			continue
+		}
+		if in.desig >= 0 && in.desig != int(in.nat) {
+			x.Unsettled = "X/28 or M/29 designates another G0 set / national option than the page header"
 		}
 		c := Cue{Start: ns(in.start - first), End: ns(in.end - first)}
 		var rows []int
